@@ -55,7 +55,7 @@ Theorem C01_uppercase_destination_rejected :
 Proof. exact cs_c01_uppercase_send_rejected. Qed.
 Print Assumptions C01_uppercase_destination_rejected.
 
-(* Signed transfers: updateState checks their destinations itself (repaired, 7b388a6): a call that
+(* Signed transfers: updateState checks their destinations itself (repaired, 4b90b55): a call that
    signed a transfer to an id the strict IsHash refuses fails the whole transaction. *)
 Theorem C01_signed_noncanonical_destination_rejected :
   forall cfg st round tx ws trs signed evs out,
